@@ -56,7 +56,8 @@ def enumerated(check):
 def run(check):
     check.rule = ("multi-output programs (success path plus error-output / alt / crashed / deploy_failed / disabled paths); outcome vectors over "
                   "{success,error,alt,crash,deployfail} enumerated for 6 small shapes (exhaustive in thorough, 25 per shape in quick) plus generated "
-                  "programs of all shapes; completion order varied by random delay plans; oracle: returned (id,data,err) must lie in the reference's "
+                  "programs of all shapes, some with an output field / wait-optional field / step input that cannot be evaluated over the produced values (such an output is "
+                  "not producible); completion order varied by random delay plans; oracle: returned (id,data,err) must lie in the reference's "
                   "allowed set; non-trivial = at least one step does not succeed or >=2 outputs declared; distinct = (shape, outcome vector, returned id)")
     check.assumptions = ["reference semantics vlib/ref.py (Appendix B of DESIGN.md)", "error message texts are not compared"]
     gs = enumerated(check)
